@@ -21,8 +21,9 @@ and the reader takes each field from the same offset (`field_read_at`); the seco
 is the type number and the third the request id (`header`).
 
 Not covered by these theorems (decided by the correspondence run and the oracle on the real code):
-the inner layout of the hand-written codecs (marked opaque in the byte map: IS_SMALL's value,
-CarContact, CIM modes, the version text of IS_VER) and IS_MSO's hand-written body.
+the inner layout of the hand-written codecs (marked opaque in the byte map: IS_SMALL's value — its named
+values are compared in `small_values_conform` —, CIM modes, the version text of IS_VER) and IS_MSO's
+hand-written body. CarContact's inner layout is compared in `coninfo_cells_conform`.
 -/
 namespace Insim.Props.C02
 open Insim Insim.Layout Insim.Spec Insim.Props.C03 Insim.Frame
@@ -126,6 +127,43 @@ theorem header (m : Mode) (L : Layout) (v : PVal) (f : Bytes)
     · injection h with h; exact ⟨_, body, h.symm, rfl⟩
     · cases h
     · cases h
+
+/-! ### inside the hand-written CarContact codec -/
+
+/-- byte layout of the hand-written CarContact codec (`customEnc .conInfo` / `customDec .conInfo`):
+normalised name, offset inside the 16 bytes, width. Byte 2 is spare. -/
+def conInfoCells : List (Bytes × Nat × Nat) :=
+  [([112, 108, 105, 100], 0, 1), ([105, 110, 102, 111], 1, 1), ([115, 116, 101, 101, 114], 3, 1),
+   ([116, 104, 114, 98, 114, 107], 4, 1), ([99, 108, 117, 104, 97, 110], 5, 1), ([103, 101, 97, 114, 115, 112], 6, 1),
+   ([115, 112, 101, 101, 100], 7, 1), ([100, 105, 114, 101, 99, 116, 105, 111, 110], 8, 1),
+   ([104, 101, 97, 100, 105, 110, 103], 9, 1), ([97, 99, 99, 101, 108, 102], 10, 1), ([97, 99, 99, 101, 108, 114], 11, 1),
+   ([120], 12, 2), ([121], 14, 2)]
+
+/-- the specification's cells of IS_CON under a prefix (`a.` / `b.`), relative to a base offset -/
+def specSub (S : SKind) (pre : Bytes) (base : Nat) : List (Bytes × Nat × Nat) :=
+  (S.cells.filter (fun c => beqB (c.code.take pre.length) pre)).map (fun c => (c.code.drop pre.length, c.off - base, c.width))
+
+def eqCells : List (Bytes × Nat × Nat) → List (Bytes × Nat × Nat) → Bool
+  | [], [] => true
+  | a :: as, b :: bs => beqB a.1 b.1 && a.2.1 == b.2.1 && a.2.2 == b.2.2 && eqCells as bs
+  | _, _ => false
+
+/-- the hand-written CarContact layout is the specification's, for both cars of IS_CON -/
+theorem coninfo_cells_conform :
+    (match specFor Gen.Spec.all 50 with
+     | some S => eqCells (specSub S [97, 46] 8) conInfoCells && eqCells (specSub S [98, 46] 24) conInfoCells
+     | none => false) = true := by decide +kernel
+
+/-- what the hand-written writer puts at those offsets, for every in-range value (nibbles ≤ 15) -/
+theorem coninfo_written (plid info steer thr brk clu han gearsp speed direction heading accelf accelr x y : Nat) (bs : Bytes)
+    (h : customEnc genEnv .conInfo [.n plid, .n info, .n steer, .n thr, .n brk, .n clu, .n han, .n gearsp, .n speed,
+      .n direction, .n heading, .n accelf, .n accelr, .n x, .n y] = .ok bs) :
+    bs = [plid % 256, info % 256, 0, steer % 256, thr * 16 + brk, clu * 16 + han, gearsp * 16, speed % 256,
+          direction % 256, heading % 256, accelf % 256, accelr % 256] ++ leBytes 2 x ++ leBytes 2 y := by
+  simp only [customEnc] at h
+  split at h
+  · cases h
+  · injection h with h; exact h.symm
 
 /-! ### non-vacuity -/
 
